@@ -118,6 +118,11 @@ class SamplerDriver:
             self.obj.initialize()      # get_state() is defined on an initialised sampler (save_checkpoint initialises itself)
         return ("mem", pickle.loads(pickle.dumps(self.obj.get_state())))
 
+    def history_snapshot(self):
+        """the record as get_history() returns it, detached from the live lists (get_history hands out the lists themselves)"""
+        import copy
+        return copy.deepcopy(self.obj.get_history())
+
     def fresh_load(self, saved):
         self.construct()
         if saved[0] == "file":
@@ -275,10 +280,22 @@ def run_behaviour(ctx, name, driver_cls, factory, case, seed, workdir, ref_cache
                 saved = drv.save("%s_%d" % (name, os.getpid()), how)
                 saved_k = e["k"]
                 saved_ref_warm = ref_warm
-            elif op == "freshload":
+            elif op == "saveall":
+                # SamplerHist.tla: checkpoint AND a snapshot of the record (get_history), taken at the same idle moment
+                if not drv.has_ckpt:
+                    return
+                saved = drv.save("%s_%d" % (name, os.getpid()), how)
+                saved_k = e["k"]
+                saved_ref_warm = ref_warm
+                saved_hist = drv.history_snapshot()
+            elif op in ("freshload", "freshloadall"):
                 if not drv.has_ckpt:
                     return
                 drv.fresh_load(saved)
+                if op == "freshloadall":
+                    # set_history installs the lists it is given (a later transition appends to them): every load gets its own copy
+                    import copy as _copy
+                    drv.obj.set_history(_copy.deepcopy(saved_hist))
                 if saved_ref_warm != ref_warm:          # the checkpoint was taken before a reinitialize(): back to that run
                     ref_warm = saved_ref_warm
                     ref = get_ref(ref_warm)
@@ -292,8 +309,8 @@ def run_behaviour(ctx, name, driver_cls, factory, case, seed, workdir, ref_cache
                 twin.construct()
                 if ref_warm:
                     twin.warmup(ref_warm)
-                if e["start"] - ref_warm > 0:
-                    twin.sample(e["start"] - ref_warm)
+                if e["k"] - ref_warm > 0:
+                    twin.sample(e["k"] - ref_warm)
                 for attr in STATE_ATTRS + TUNING_ATTRS:
                     if hasattr(twin.obj, attr) and hasattr(drv.obj, attr):
                         a, b = getattr(twin.obj, attr), getattr(drv.obj, attr)
@@ -305,9 +322,9 @@ def run_behaviour(ctx, name, driver_cls, factory, case, seed, workdir, ref_cache
                                 continue
                             ctx.mismatch(sig("resume_state/" + attr), dict(case, sampler=name, pos=pos),
                                          "after loading the checkpoint taken at k=%d into a fresh sampler, %s differs from the "
-                                         "uninterrupted run at that point" % (e["start"], attr), a, b)
+                                         "uninterrupted run at that point" % (e["k"], attr), a, b)
                             return
-                np.random.set_state(RNG[e["start"]])      # RestoreStream: position of the uninterrupted run at the checkpoint
+                np.random.set_state(RNG[e["k"]])      # RestoreStream: position of the uninterrupted run at the checkpoint
                 seen_prefix = None
             elif op == "reinit":
                 if not drv.has_ckpt:
@@ -381,13 +398,14 @@ def run_behaviour(ctx, name, driver_cls, factory, case, seed, workdir, ref_cache
                 ctx.mismatch(sig("callback"), dict(case, sampler=name, pos=pos),
                              "callback invoked %d times, %d transition-produced states" % (len(cb), e["ncb"]), e["ncb"], len(cb))
                 return
+            cbbase = len(hist) - e["ncb"]       # entries of the record that were loaded with set_history (SamplerHist.tla), else 0
             for j, (val, idx) in enumerate(cb):
-                if idx != j or not _eq(val, S[hist[j]]):
+                if idx != cbbase + j or not _eq(val, S[hist[cbbase + j]]):
                     ctx.mismatch(sig("callback"), dict(case, sampler=name, pos=pos),
-                                 "callback %d received (state, index) other than (S(%d), %d)" % (j, hist[j], j),
-                                 expected=[S[hist[j]], j], observed=[val, idx])
+                                 "callback %d received (state, index) other than (S(%d), %d)" % (j, hist[cbbase + j], cbbase + j),
+                                 expected=[S[hist[cbbase + j]], cbbase + j], observed=[val, idx])
                     return
-    if drv.has_ckpt and any(e["op"] == "freshload" for e in prog) and prog[-1]["k"] + TAIL < len(S):
+    if drv.has_ckpt and any(e["op"] in ("freshload", "freshloadall") for e in prog) and prog[-1]["k"] + TAIL < len(S):
         e = prog[-1]
         try:
             drv.sample(TAIL)
@@ -744,6 +762,44 @@ def batch_facet(ctx, workdir):
 
 
 # ----------------------------------------------------------------------------------------------------------
+# ----------------------------------------------------------------------------------------------------------
+# growth beyond the listed checkpoint: the record carried over with get_history / set_history (SamplerHist.tla)
+# ----------------------------------------------------------------------------------------------------------
+def hist_facet(ctx, sf, rnd, workdir, ref_cache):
+    from cuqiverif import zoo
+    from cuqiverif.core import MachineryError
+    import json as _json
+    res = ctx.tlc("SamplerHist", cfg="SamplerHist.%s.cfg" % ctx.tier, workers=8, extra_modules=["SamplerLife.tla"],
+                  require_actions=["SaveAll", "FreshLoadAll"])
+    ctx.model_must_hold(res, "SamplerHist")
+    for cfg, inv in (("dev_notloaded", "Tracks"), ("dev_aliased", "Tracks")):
+        r = ctx.tlc("SamplerHist", cfg="SamplerHist.%s.cfg" % cfg, workers=4, extra_modules=["SamplerLife.tla"], expect_violation=True)
+        if r.ok or r.violated != inv:
+            raise MachineryError("deviation %s of SamplerHist did not violate %s (got %r): invariant is vacuous" % (cfg, inv, r.violated))
+    cases = sorted(res.cases, key=lambda c: _json.dumps(c, sort_keys=True))
+    if not cases:
+        raise MachineryError("SamplerHist emitted no behaviours")
+
+    def core(c):
+        # the record is loaded and the new instance then produces states (the callback index and the continuation are exercised)
+        ops = [e["op"] for e in c["prog"]]
+        i = ops.index("freshloadall")
+        return len(c["prog"][i]["hist"]) > 0 and any(e["op"] == "sample" and e["n"] > 0 for e in c["prog"][i + 1:])
+    keep = [c for c in cases if core(c)]
+    limit = 12 if ctx.tier == "quick" else 150
+    ran = 0
+    for name, fac in sf.items():
+        sel = keep if len(keep) <= limit else rnd.sample(keep, limit)
+        for c in sel:
+            ctx.case(("hist", name, c["warm"], tuple((e["op"], e["n"]) for e in c["prog"])))
+            with zoo.quiet():
+                run_behaviour(ctx, name, SamplerDriver, fac, c, 1000 + ctx.seed, workdir, ref_cache)
+            ran += 1
+    if ran == 0:
+        raise MachineryError("vacuous: no SamplerHist behaviour was replayed")
+    ctx.facets["hist/behaviours"] = ctx.facets.get("hist/behaviours", 0) + ran
+
+
 def bp_problems():
     """one small Bayesian problem per dispatch branch of BayesianProblem.sample_posterior"""
     import cuqi
@@ -892,6 +948,7 @@ def run(ctx):
                 with zoo.quiet():
                     run_behaviour(ctx, name, cls, fac, c, 1000 + ctx.seed, workdir, ref_cache, legacy_gibbs=isleg)
         ctx.sample({"sampler": "MH", "behaviour": stateful[len(stateful) // 2]})
+        hist_facet(ctx, sf, rnd, workdir, ref_cache)
         for name, fac in lf.items():
             for c in legacy:
                 e = c["prog"][0]
